@@ -847,6 +847,7 @@ pub fn run(rec: &mut Rec) {
     lig_one_call(rec);
     crate::special::c01_special(rec);
     crate::special::c01_special_ladder(rec);
+    crate::special::c01_special_stream(rec);
     crate::special::c01_special_universes(rec);
     // points on and near the Boolean hypercube
     crate::special::hypercube::<SPst>(rec, "C01", &[2, 3]);
